@@ -1,0 +1,29 @@
+//go:build verif
+
+package socket
+
+// Lemma functions for /verif/gvc (never called; see /verif/DESIGN.md, C17): the round trips of the statement, proved
+// from the contracts of the conversion functions alone.
+
+import (
+	"net"
+
+	"golang.org/x/sys/unix"
+)
+
+func lemmaTCPRoundTrip(a *net.TCPAddr) net.Addr {
+	return SockaddrToTCPOrUnixAddr(TCPAddrToSockaddr(a))
+}
+
+func lemmaUDPRoundTrip(a *net.UDPAddr) net.Addr {
+	return SockaddrToUDPAddr(UDPAddrToSockaddr(a))
+}
+
+func lemmaUnixRoundTrip(a *net.UnixAddr) net.Addr {
+	sa, _ := UnixAddrToSockaddr(a)
+	return SockaddrToTCPOrUnixAddr(sa)
+}
+
+func lemmaSockaddr4RoundTrip(sa *unix.SockaddrInet4) unix.Sockaddr {
+	return NetAddrToSockaddr(SockaddrToTCPOrUnixAddr(sa))
+}
